@@ -5,16 +5,26 @@ package commands
 // Overlaid into /repo/internal/commands by /verif/check C32 / C20. Runs the REAL route declarations
 // (defineStaticRoutes + defineNativeAdminHandlers, the same calls setupServerRouter makes) and dumps
 // endpoint, method and gate flags of every route, one per line:
-//   ROUTE <hex endpoint> <method> <mustAuth> <canAuth> <lightweight> <n perms> <hex perm>...
+//   ROUTE <hex endpoint> <method> <mustAuth> <canAuth> <lightweight> <n perms> <hex perm>... V<number of validations>
 
 import (
 	"bufio"
 	"encoding/hex"
 	"encoding/json"
 	"fmt"
+	"net/http/httptest"
 	"os"
+	"path/filepath"
 	"sort"
+	"strings"
 	"testing"
+	"time"
+
+	"github.com/google/uuid"
+	"github.com/tucats/ego/internal/caches"
+	"github.com/tucats/ego/internal/language/tokens"
+	"github.com/tucats/ego/internal/server/auth"
+	"github.com/tucats/ego/internal/util/validate"
 
 	"github.com/tucats/ego/internal/cli/settings"
 	"github.com/tucats/ego/internal/defs"
@@ -53,7 +63,7 @@ func TestVerifRouteTable(t *testing.T) {
 			fmt.Fprintf(w, " %s", hex.EncodeToString([]byte(p)))
 		}
 
-		fmt.Fprintln(w)
+		fmt.Fprintf(w, " V%d\n", len(x.Validations))
 	}
 }
 
@@ -105,6 +115,137 @@ func TestVerifRealFind(t *testing.T) {
 	}
 
 	ob, _ := json.Marshal(out)
+	if err := os.WriteFile(os.Getenv("VERIF_OUT"), ob, 0o644); err != nil {
+		t.Fatal(err)
+	}
+}
+
+// TestVerifRealGate drives EVERY route of the real table through the real ServeHTTP with recording handlers:
+// credential forms none / norm (valid password, holds only ego.logon) / root, bodies valid (for routes that
+// have payload validations: the first candidate body one of the route's validations accepts) / invalid.
+// VERIF_OUT JSON [{"endpoint","method","must","light","perms","nvalid","cred","body","bodyvalid","invoked","status"}]
+func TestVerifRealGate(t *testing.T) {
+	svc, err := auth.NewFileService(filepath.Join(t.TempDir(), "users.json"), "verifadmin", "verif-admin-pw")
+	if err != nil {
+		t.Fatal(err)
+	}
+
+	auth.AuthService = svc
+
+	for _, u := range []struct {
+		name, pw string
+		perms    []string
+	}{{"norm", "pw-norm", []string{defs.LogonPermission}}, {"rootie", "pw-root", []string{defs.RootPermission}}} {
+		h, err := auth.HashPassword(u.pw)
+		if err != nil {
+			t.Fatal(err)
+		}
+
+		if err := auth.AuthService.WriteUser(0, defs.User{Name: u.name, ID: uuid.New(), Password: h, Permissions: u.perms}); err != nil {
+			t.Fatal(err)
+		}
+	}
+
+	caches.Add(caches.TokenCache, "verif-real-norm", &tokens.Token{Name: "norm", TokenID: uuid.New(), Expires: time.Now().Add(time.Hour)})
+	caches.Add(caches.TokenCache, "verif-real-root", &tokens.Token{Name: "rootie", TokenID: uuid.New(), Expires: time.Now().Add(time.Hour)})
+
+	r := defineStaticRoutes()
+	defineNativeAdminHandlers(r)
+
+	invoked := false
+	r.VerifWrapHandlers(func(string, string) { invoked = true })
+
+	candidates := []string{}
+
+	for _, v := range []any{
+		defs.User{Name: "someone", Password: "pw", Permissions: []string{"ego.logon"}},
+		defs.LoggingItem{RetainCount: 3, Loggers: map[string]bool{"auth": true}},
+		defs.DSN{Name: "d1", Provider: "sqlite", Database: "x.db"},
+		defs.DSNPermissionItem{DSN: "d1", User: "someone", Actions: []string{"read"}},
+		defs.Credentials{Username: "someone", Password: "something"},
+		[]defs.TXOperation{},
+	} {
+		b, _ := json.Marshal(v)
+		candidates = append(candidates, string(b))
+	}
+
+	type row struct {
+		Endpoint  string   `json:"endpoint"`
+		Method    string   `json:"method"`
+		Must      bool     `json:"must"`
+		Can       bool     `json:"can"`
+		Light     bool     `json:"light"`
+		Perms     []string `json:"perms"`
+		NValid    int      `json:"nvalid"`
+		Cred      string   `json:"cred"`
+		Body      string   `json:"body"`
+		BodyValid bool     `json:"bodyvalid"`
+		Invoked   bool     `json:"invoked"`
+		Status    int      `json:"status"`
+	}
+
+	rows := []row{}
+
+	for _, x := range r.VerifRoutes() {
+		path := x.Endpoint
+		for strings.Contains(path, "{{") {
+			i, j := strings.Index(path, "{{"), strings.Index(path, "}}")
+			if j < i {
+				break
+			}
+
+			path = path[:i] + "zz" + path[j+2:]
+		}
+
+		accepts := func(body string) bool {
+			for _, v := range x.Validations {
+				if validate.Validate([]byte(body), v) == nil {
+					return true
+				}
+			}
+
+			return false
+		}
+
+		bodies := map[string]string{"invalid": `{"name":17,"username":17,"provider":3,"keep":"x"}`}
+
+		for _, c := range candidates {
+			if accepts(c) {
+				bodies["valid"] = c
+
+				break
+			}
+		}
+
+		if len(x.Validations) == 0 {
+			bodies = map[string]string{"none": ""}
+		}
+
+		for bname, body := range bodies {
+			for _, cred := range []string{"none", "norm", "root"} {
+				var req = httptest.NewRequest(x.Method, path, strings.NewReader(body))
+				req.Header.Set("Accept", "*/*")
+
+				// cached tokens (no bcrypt): Authenticate takes the token-cache hit path
+				switch cred {
+				case "norm":
+					req.Header.Set("Authorization", "Bearer verif-real-norm")
+				case "root":
+					req.Header.Set("Authorization", "Bearer verif-real-root")
+				}
+
+				invoked = false
+				w := httptest.NewRecorder()
+				r.ServeHTTP(w, req)
+
+				rows = append(rows, row{Endpoint: x.Endpoint, Method: x.Method, Must: x.MustAuth, Can: x.CanAuth, Light: x.Lightweight,
+					Perms: x.Perms, NValid: len(x.Validations), Cred: cred, Body: bname, BodyValid: len(x.Validations) > 0 && accepts(body),
+					Invoked: invoked, Status: w.Code})
+			}
+		}
+	}
+
+	ob, _ := json.Marshal(rows)
 	if err := os.WriteFile(os.Getenv("VERIF_OUT"), ob, 0o644); err != nil {
 		t.Fatal(err)
 	}
